@@ -8,6 +8,11 @@ from fractions import Fraction
 
 import numpy
 
+
+def _qt_bounds(region):
+    from .c17 import qt_bounds
+    return qt_bounds(region)
+
 from .core import frac
 
 # Input classes on which the UNCHANGED code misbehaves and that wait for a decision (genuine-defect candidates, notes/C03.md).
@@ -155,9 +160,9 @@ def state_seq_case(run, drv, pending, case):
     else:
         from csep.core.regions import QuadtreeGrid2D
         region = QuadtreeGrid2D.from_quadkeys(list(case["quadkeys"]))
-        cell_of = base.quad_cell_of(region.bounds)
+        cell_of = base.quad_cell_of(_qt_bounds(region))
         ncell, cart = len(case["quadkeys"]), False
-        b = numpy.asarray(region.bounds, dtype=float)
+        b = _qt_bounds(region)
         rargs = [",".join(frac(v) for v in b[:, c]) for c in range(4)]
     if state == "bins":
         region.magnitudes = numpy.array(grids[0])
@@ -293,13 +298,22 @@ def state_seq_case(run, drv, pending, case):
                 if len(df) != n:
                     fail(step, f"to_dataframe has {len(df)} rows for {n} events")
                     return
-                rid = base._ints(df["region_id"].to_numpy()) if "region_id" in cols else None
-                mid = base._ints(df["mag_id"].to_numpy()) if "mag_id" in cols else None
-                got = ("df", rid, mid)
-        except ValueError:
+
+                def col(name):
+                    # integers; a missing value (NaN / None / <NA>) of a friendlier rewrite is kept as None
+                    if name not in cols:
+                        return None
+                    out = []
+                    for v in df[name].tolist():
+                        try:
+                            out.append(None if v is None or v != v else (int(v) if float(v) == int(v) else "non-integer"))
+                        except (TypeError, ValueError):
+                            out.append(None)
+                    return out
+                got = ("df", col("region_id"), col("mag_id"))
+        except Exception as ex:      # a rejection; the exception class is not part of the property
             got = "E"
-        except Exception as ex:
-            got = "X:" + type(ex).__name__
+            run.count("stateseq:rejection-class:" + type(ex).__name__)
         run.count(f"stateseq:{state}:{op}:{'explicit' if g is not None else 'bound'}")
         if "tol" in extra:
             run.count("stateseq:tol-argument")
@@ -310,12 +324,26 @@ def state_seq_case(run, drv, pending, case):
                 ok = (not raised) and got[1] is None and got[2] is None
                 want = "a frame without region_id / mag_id"
             else:
-                # Cartesian: an outside event makes get_index_of raise; quadtree: pandas rejects the shorter column / empty catalog raises
-                must_raise = (anyout and n > 0) or (not cart and n == 0)
+                # An event in no cell must not be given the cell of another event (no silent misplacement): the frame is rejected
+                # (Cartesian lookup raises; quadtree: pandas rejects the shorter column) or the event's region_id is not a cell index
+                # (missing / negative). Incidental, accepted but not demanded: the quadtree lookup of the current code raises on an
+                # EMPTY catalog — the empty frame is what the property's statement gives.
                 wrid = [c for c in cells_ev]
                 wmid = [-1 if x is None else x for x in rec(use, ci)[5]] if isinstance(use, list) else None
-                want = "raise" if must_raise else ("df", wrid, wmid)
-                ok = raised if must_raise else (not raised and got[1] == wrid and (got[2] == wmid or (wmid == [] and got[2] in ([], None))))
+                ncell_now = int(region.num_nodes)
+
+                def rid_ok(g_rid):
+                    return isinstance(g_rid, list) and len(g_rid) == n and all(
+                        (a == w) if w is not None else (a is None or (isinstance(a, int) and not 0 <= a < ncell_now))
+                        for a, w in zip(g_rid, wrid))
+                mid_ok = (not raised) and (got[2] == wmid or (wmid == [] and got[2] in ([], None)))
+                want = "a rejection, or no cell index for the events in no cell" if (anyout and n > 0) else ("df", wrid, wmid)
+                if anyout and n > 0:
+                    ok = raised or (rid_ok(got[1]) and mid_ok)
+                elif not cart and n == 0:
+                    ok = raised or (got[1] in ([], None) and mid_ok)
+                else:
+                    ok = (not raised) and got[1] == wrid and mid_ok
                 if not ok and not raised and state in ("absent", "unset") and default_used and got[1] == wrid and got[2] is None:
                     ok, not_written_seen = True, True       # default bins not written onto the region
             if not ok:
@@ -335,12 +363,24 @@ def state_seq_case(run, drv, pending, case):
             want = {"smc": e_smc, "mc": e_mc, "midx": [-1 if x is None else x for x in bins]}[op]
 
         def matches(want):
-            if want == "raise":
-                return got == "E" or (isinstance(got, str) and got.startswith("X:"))
-            if want == "E":
+            if want in ("raise", "E"):
                 return got == "E"
             return got == want or (want == [] and got == [])
         ok = matches(want)
+        if not ok and op in ("sc", "sep") and want == "E" and cart:
+            # an event outside a Cartesian region: rejected by the current lookup; leaving it uncounted is admissible as well
+            a_sc = [0] * int(region.num_nodes)
+            for c in cells_ev:
+                if c is not None:
+                    a_sc[c] += 1
+            ok = got == (a_sc if op == "sc" else [1 if v > 0 else 0 for v in a_sc])
+            not_written_seen = not_written_seen or ok      # the model (code as it is) is not compared for this session
+        # a region WITHOUT magnitude bins and no explicit bins: the current code raises a configuration error; a friendlier rewrite
+        # may fall back to the documented default bins as magnitude_counts does — the exact recount on those bins is accepted too
+        if not ok and use == "raise" and op in ("smc", "midx") and g is None and bound in ("unset", "absent", None) and state != "noregion":
+            e_d = rec(dflt, ci)
+            ok = got == (e_d[3] if op == "smc" else [-1 if x is None else x for x in e_d[5]])
+            not_written_seen = not_written_seen or ok
         # the default bins written onto the region (code as it is); a rewrite that does not write them makes later region-bound
         # calls raise instead — both are accepted, per step
         if not ok and state in ("absent", "unset") and default_used and isinstance(bound, list) and op in ("smc", "midx"):
@@ -438,9 +478,7 @@ def flush(run, drv, pending):
                 continue
             for step, (tok, (op, got, retb)) in enumerate(zip(toks, results)):
                 val, bins = _canon_model_tok(tok)
-                if val == "raise":
-                    same = isinstance(got, str) and (got == "E" or got.startswith("X:"))
-                elif val == "E":
+                if val in ("raise", "E"):
                     same = got == "E"
                 else:
                     same = (got == val) or (val == [] and got == []) or (op == "smc" and val == [] and got == [])
@@ -535,9 +573,9 @@ def expected_case(run, drv, pending, case):
     else:
         from csep.core.regions import QuadtreeGrid2D
         region = QuadtreeGrid2D.from_quadkeys(list(case["quadkeys"]))
-        cell_of = base.quad_cell_of(region.bounds)
+        cell_of = base.quad_cell_of(_qt_bounds(region))
         ncell, cart = len(case["quadkeys"]), False
-        b = numpy.asarray(region.bounds, dtype=float)
+        b = _qt_bounds(region)
         rargs = [",".join(frac(v) for v in b[:, c]) for c in range(4)]
     region.magnitudes = numpy.array(edges)
     # the catalogs come bound to nothing, or to ANOTHER region with other bins: the forecast's grid must be used
@@ -573,16 +611,14 @@ def expected_case(run, drv, pending, case):
         er = fc.get_expected_rates()
         data = numpy.asarray(er.data, dtype=float)
         got = "ok"
-    except ValueError:
+    except Exception as ex:      # a rejection; the class is not judged
         got = "E"
-    except Exception as ex:
-        run.oracle_failure(case, f"get_expected_rates raised {type(ex).__name__}: {ex}")
-        return
+        run.count("expected:rejection-class:" + type(ex).__name__)
     allevs = [e for evs in catevs for e in evs]
     nontriv = ncat > 1 and len(allevs) > 0
     run.case(case if run.evaluations < 4 else None, ("expected", json.dumps(case, sort_keys=True)) if nontriv else None)
     if bad != (got == "E"):
-        run.oracle_failure(case, f"get_expected_rates {'returned' if got == 'ok' else 'raised ValueError'} although "
+        run.oracle_failure(case, f"get_expected_rates {'returned' if got == 'ok' else 'raised'} although "
                                  f"{'a' if bad else 'no'} catalog holds an event outside the region / below the lowest edge")
         return
     sizes = ",".join(str(len(e)) for e in catevs)
@@ -598,9 +634,11 @@ def expected_case(run, drv, pending, case):
     if data.shape != (ncell, len(edges)):
         run.oracle_failure(case, f"expected rates have shape {data.shape}, the grid is {(ncell, len(edges))}")
         return
-    want = [[v / ncat for v in r] for r in total]            # the same IEEE division the code does (count / n_cat)
-    if data.tolist() != want:
-        diff = [(i, k) for i in range(ncell) for k in range(len(edges)) if data[i][k] != want[i][k]][:3]
+    want = [[v / ncat for v in r] for r in total]            # count / n_cat; another order of the same arithmetic (a running
+    # mean, a mean over a stack) may differ in the last bits: compared to rounding (1e-12 relative), counts themselves are integers
+    wa = numpy.asarray(want, dtype=float).reshape(data.shape)
+    if not numpy.all(numpy.abs(data - wa) <= 1e-12 * numpy.maximum(1.0, numpy.abs(wa))):
+        diff = [(i, k) for i in range(ncell) for k in range(len(edges)) if abs(data[i][k] - want[i][k]) > 1e-12 * max(1.0, abs(want[i][k]))][:3]
         run.oracle_failure(case, f"expected rate of (cell, bin) {diff} is {[float(data[i][k]) for i, k in diff]}; the events of "
                                  f"the {ncat} catalogs in those bins divided by {ncat} give {[want[i][k] for i, k in diff]}")
         return
@@ -688,9 +726,9 @@ def big_case(run, drv, pending, case):
                  ",".join(str(j) for _, j in cells), ",".join("1" for _ in cells)]
     else:
         region = QuadtreeGrid2D.from_quadkeys(list(case["quadkeys"]), magnitudes=numpy.array(edges) if case["mode"] == "bound" else None)
-        cell_of = base.quad_cell_of(region.bounds)
+        cell_of = base.quad_cell_of(_qt_bounds(region))
         ncell, cart = len(case["quadkeys"]), False
-        b = numpy.asarray(region.bounds, dtype=float)
+        b = _qt_bounds(region)
         rargs = [",".join(frac(v) for v in b[:, c]) for c in range(4)]
     kw = {} if case["mode"] == "bound" else dict(mag_bins=list(edges) if case["mode"] == "list" else numpy.array(edges))
     run.case(dict(kind="big", n=n, rkind=case["rkind"]), ("big", json.dumps({k: v for k, v in case.items() if k != "background"}, sort_keys=True)))
@@ -722,7 +760,7 @@ def big_case(run, drv, pending, case):
     got = dict(sc=base._call(lambda: fresh().spatial_counts()), sep=base._call(lambda: fresh().spatial_event_probability()),
                mc=base._call(lambda: fresh().magnitude_counts(**kw)), smc=base._call(lambda: fresh().spatial_magnitude_counts(**kw)))
     for k in ("sc", "sep", "mc", "smc"):
-        if got[k] != want[k]:
+        if got[k] != want[k] and not (k in ("sc", "sep") and want[k] == "E" and got[k] == (e_sc if k == "sc" else [1 if v else 0 for v in e_sc])):
             run.oracle_failure(case, f"{n} events, {case['n_dense']} of them in one (cell, bin): {k} = {str(got[k])[:150]}, exact recount "
                                      f"{str(want[k])[:150]}")
             return
